@@ -78,16 +78,18 @@ type Opts struct {
 }
 
 type Scn struct {
-	R      *vfw.Run
-	W      *seamrt.World
-	T      *seamrt.Tape
-	Cfg    *config.Config
-	Ids    []*Ident // genesis identities; Ids[0] is god
-	Extra  []*Ident // plain accounts / fresh keys
-	byAddr map[common.Address]*Ident
-	Nodes  []*simnode.Node
-	Net    *simipfs.Net
-	Script uint64
+	R *vfw.Run
+	// CraftedEvidence: payloads of evidence transactions the harness made up (see HostileEvidencePayload)
+	CraftedEvidence map[string]bool
+	W               *seamrt.World
+	T               *seamrt.Tape
+	Cfg             *config.Config
+	Ids             []*Ident // genesis identities; Ids[0] is god
+	Extra           []*Ident // plain accounts / fresh keys
+	byAddr          map[common.Address]*Ident
+	Nodes           []*simnode.Node
+	Net             *simipfs.Net
+	Script          uint64
 	// PassBias: 0 = outcomes drawn uniformly over the score tables, 1 = most identities pass, 2 = nearly all pass
 	PassBias int
 	Opts     Opts
@@ -114,7 +116,7 @@ func dnaMul(n int64) *big.Int { return new(big.Int).Mul(big.NewInt(n), dna) }
 
 // New draws the configuration.
 func New(r *vfw.Run, o Opts) *Scn {
-	s := &Scn{R: r, W: r.W, T: r.Tape, Opts: o, byAddr: map[common.Address]*Ident{}, Net: simipfs.NewNet()}
+	s := &Scn{R: r, W: r.W, T: r.Tape, Opts: o, byAddr: map[common.Address]*Ident{}, Net: simipfs.NewNet(), CraftedEvidence: map[string]bool{}}
 	t := r.Tape
 	if o.MinIdent <= 0 {
 		o.MinIdent = 1
